@@ -1338,8 +1338,10 @@ func (d *dealer) syncDelCalleeReg(callee *wamp.Session, regID wamp.ID) (bool, er
 	}
 
 	// Remove the callee from the registration.
+	var found bool
 	for i := range reg.callees {
 		if reg.callees[i] == callee {
+			found = true
 			if d.debug {
 				d.log.Printf("Unregistered procedure %v (regID=%v) (callee=%v)",
 					reg.procedure, regID, callee.ID)
@@ -1352,6 +1354,10 @@ func (d *dealer) syncDelCalleeReg(callee *wamp.Session, regID wamp.ID) (bool, er
 			}
 			break
 		}
+	}
+	if !found {
+		// A session can only remove its own registration.
+		return false, fmt.Errorf("callee %v not registered for: %v", callee, regID)
 	}
 
 	// If no more callees for this registration, then delete the registration
